@@ -260,6 +260,13 @@ def _check_wakeups(check, an: Analysis):
                        'every listener is told about the new value before the next '
                        'suspension (loop over all listeners: %s)' % body_ok,
                        path=rules.path_lines(*bad) if bad else None, analysed=n_sites)
+    check_comparison_trigger(check, an, 'W')
+    _check_comparison_listens(check, an)
+
+
+def check_comparison_trigger(check, an: Analysis, rule: str):
+    """a change of a tracked operand wakes the waiters (and delivers the signal of the
+    subscribers: an `until` block has no second look) exactly when the comparison holds"""
     changed = an.callee(COMPARISON, '__on_changed__')
     seen = {}
     for path in an.paths(changed):
@@ -270,9 +277,13 @@ def _check_wakeups(check, an: Analysis):
         triggered = any(is_call_to(e, '__trigger__') for e in path.events)
         if tests:
             seen[key_truth(tests[0])] = triggered
-    check.instance('W', 'AsyncComparison.__on_changed__', seen == {True: True, False: False},
+    check.instance(rule, 'AsyncComparison.__on_changed__',
+                   seen == {True: True, False: False},
                    where_fn(changed.fn), 'a comparison that now holds triggers its waiters, '
                    'one that does not hold stays quiet: %s' % seen)
+
+
+def _check_comparison_listens(check, an: Analysis):
     cinit = an.callee(COMPARISON, '__init__')
     cparams = [a.arg for a in cinit.fn.node.args.args]
     verdict, n_paths, bad = True, 0, None
@@ -976,4 +987,7 @@ def _check_algebra(check, an: Analysis, classes):
                        ok and seen == {True, False}, where_fn(method),
                        'both operands in order; a same-kind operand (and only that) is '
                        'flattened: %s' % sorted({t for _a, t, _n, _p in forms}))
+    # a comparison of the clock with a date is a condition *object* for that date: its
+    # truth follows the clock afterwards (shared with C01)
+    c01.check_time_operators(check, an, 'B')
     check.floor('B', 30)
